@@ -1309,6 +1309,7 @@ fn counting_panic_hook() {
     }));
 }
 
+#[allow(dead_code)]
 struct NetWorld {
     rt: tokio::runtime::Runtime,
     tcp: std::net::SocketAddr,
@@ -1319,12 +1320,52 @@ struct NetWorld {
     atcprt: std::net::SocketAddr,
     /// how often the handler of `/smuggled` ran on those two servers: no op ever sends a frame addressed to it
     smuggled: std::sync::Arc<std::sync::atomic::AtomicU64>,
+    /// every TCP endpoint by name: read timeout × write timeout pairs (class k): tcp/atcp (none, none), tcpw/atcpw
+    /// (none, 150 ms), tcprt/atcprt (30 ms, none), tcprw/atcprw (30 ms, 150 ms)
+    tcp_eps: std::collections::BTreeMap<&'static str, (std::net::SocketAddr, bool)>,
+}
+
+const WRITE_TIMEOUT_MS: u64 = 150;
+
+fn tcp_ep(w: &NetWorld, name: &str) -> (std::net::SocketAddr, bool) {
+    *w.tcp_eps.get(name).unwrap_or_else(|| panic!("unknown tcp endpoint {}", name))
+}
+
+fn ask_ping(addr: std::net::SocketAddr, ping: &[u8]) -> bool {
+    use std::io::{Read, Write};
+    if let Ok(mut s) = std::net::TcpStream::connect(addr) {
+        let _ = s.set_read_timeout(Some(std::time::Duration::from_secs(10)));
+        if s.write_all(ping).is_ok() {
+            let mut buf = Vec::new();
+            let mut tmp = [0u8; 4096];
+            while RawFrame::parse_prefix(&buf).is_none() {
+                match s.read(&mut tmp) { Ok(0) | Err(_) => break, Ok(n) => buf.extend_from_slice(&tmp[..n]) }
+            }
+            return RawFrame::parse_prefix(&buf).map(|(f, _)| f.h.id == 77 && f.h.ec == 0).unwrap_or(false);
+        }
+    }
+    false
+}
+
+/// "The endpoint still serves": a well-formed request on a fresh connection is answered.  An endpoint with a short read
+/// timeout may legitimately drop a connection whose first bytes arrive late (this process descheduled between connect and
+/// write), so there a few fresh connections are tried — the statement is about the endpoint, not about one connection.
+fn still_serves(addr: std::net::SocketAddr, has_read_timeout: bool, ping: &[u8]) -> bool {
+    for _ in 0..(if has_read_timeout { 6 } else { 1 }) {
+        if ask_ping(addr, ping) { return true; }
+    }
+    false
 }
 
 const READ_TIMEOUT_MS: u64 = 30;
 
-fn net_world() -> NetWorld {
-    let rt = tokio::runtime::Builder::new_multi_thread().worker_threads(3).enable_all().build().unwrap();
+fn net_world(lean: bool) -> NetWorld {
+    // class l: half of the runs use a runtime with ONE worker and ONE blocking-pool thread for all async endpoints
+    let rt = if lean {
+        tokio::runtime::Builder::new_multi_thread().worker_threads(1).max_blocking_threads(1).enable_all().build().unwrap()
+    } else {
+        tokio::runtime::Builder::new_multi_thread().worker_threads(3).enable_all().build().unwrap()
+    };
     let mk = || repe::Router::new().with_json("/ping", |_v| Ok(serde_json::json!("pong")));
     let l = std::net::TcpListener::bind("127.0.0.1:0").unwrap();
     let tcp = l.local_addr().unwrap();
@@ -1372,7 +1413,33 @@ fn net_world() -> NetWorld {
         });
         a
     });
-    NetWorld { rt, tcp, atcp, ws, tcprt, atcprt, smuggled }
+    let mut tcp_eps = std::collections::BTreeMap::new();
+    tcp_eps.insert("tcp", (tcp, false));
+    tcp_eps.insert("atcp", (atcp, false));
+    tcp_eps.insert("tcprt", (tcprt, true));
+    tcp_eps.insert("atcprt", (atcprt, true));
+    let ms = std::time::Duration::from_millis;
+    for (name, rd) in [("tcpw", None), ("tcprw", Some(ms(READ_TIMEOUT_MS)))] {
+        let l = std::net::TcpListener::bind("127.0.0.1:0").unwrap();
+        tcp_eps.insert(name, (l.local_addr().unwrap(), rd.is_some()));
+        let srv = repe::Server::new(mk_rt(smuggled.clone())).read_timeout(rd).write_timeout(Some(ms(WRITE_TIMEOUT_MS))).tcp_nodelay(name == "tcpw");
+        std::thread::spawn(move || {
+            let _ = srv.serve(l);
+        });
+    }
+    for (name, rd) in [("atcpw", None), ("atcprw", Some(ms(READ_TIMEOUT_MS)))] {
+        let router = mk_rt(smuggled.clone());
+        let a = rt.block_on(async {
+            let l = tokio::net::TcpListener::bind("127.0.0.1:0").await.unwrap();
+            let a = l.local_addr().unwrap();
+            tokio::spawn(async move {
+                let _ = repe::AsyncServer::new(router).read_timeout(rd).write_timeout(Some(ms(WRITE_TIMEOUT_MS))).serve(l).await;
+            });
+            a
+        });
+        tcp_eps.insert(name, (a, rd.is_some()));
+    }
+    NetWorld { rt, tcp, atcp, ws, tcprt, atcprt, smuggled, tcp_eps }
 }
 
 /// Send `bs` to a real endpoint (or answer a real client's call with it) and report whether anything panicked
@@ -1389,9 +1456,90 @@ fn exec_net(out: &mut Out, w: &NetWorld, line: &str) -> (String, bool) {
     let ping = RawFrame::request(77, false, 1, b"/ping", 2, b"null").to_vec();
     let t = std::time::Duration::from_millis(1500);
     let mut alive = true;
+    let extra = ws_.get(5).copied().unwrap_or("");
+    // ---- class g: the same hostile bytes on N fresh connections in a row (no well-formed request in between)
+    if let Some(n) = extra.strip_prefix('n').and_then(|x| x.parse::<usize>().ok()) {
+        if ep == "ws" {
+            let url = format!("ws://{}/repe", w.ws);
+            alive = w.rt.block_on(async {
+                for _ in 0..n {
+                    if let Ok((mut c, _)) = tokio_tungstenite::connect_async(&url).await {
+                        let _ = c.send(WsMsg::Binary(bs.clone())).await;
+                        let _ = tokio::time::timeout(std::time::Duration::from_millis(300), c.next()).await;
+                    }
+                }
+                let Ok((mut c, _)) = tokio_tungstenite::connect_async(&url).await else { return false };
+                if c.send(WsMsg::Binary(ping.clone())).await.is_err() { return false; }
+                match tokio::time::timeout(std::time::Duration::from_secs(10), c.next()).await {
+                    Ok(Some(Ok(WsMsg::Binary(b)))) => RawFrame::parse_prefix(&b).map(|(f, _)| f.h.id == 77 && f.h.ec == 0).unwrap_or(false),
+                    _ => false,
+                }
+            });
+        } else {
+            let (addr, has_rt) = tcp_ep(w, ep);
+            for _ in 0..n {
+                if let Ok(mut s) = std::net::TcpStream::connect(addr) {
+                    let _ = s.write_all(&bs);
+                    let _ = s.shutdown(std::net::Shutdown::Write);
+                    let _ = repe_verif_harness::net::drain(&mut s, 1 << 16, std::time::Duration::from_millis(300));
+                }
+            }
+            alive = still_serves(addr, has_rt, &ping);
+        }
+        return finish_net(out, ep, idx, line, before, alive, &format!("{} hostile connections in a row", n));
+    }
+    // ---- class l (+g): N large well-formed requests written without ever reading a response (the server's outbound side
+    // fills up), then the hostile bytes, then the peer goes away
+    if let Some(n) = extra.strip_prefix('f').and_then(|x| x.parse::<usize>().ok()) {
+        let (addr, has_rt) = tcp_ep(w, ep);
+        let big = RawFrame::request(78, false, 1, b"/ping", 2, &{ let mut b = b"null".to_vec(); b.resize(32 * 1024, b' '); b }).to_vec();
+        if let Ok(mut s) = std::net::TcpStream::connect(addr) {
+            let _ = s.set_write_timeout(Some(std::time::Duration::from_millis(500)));
+            for _ in 0..n {
+                if s.write_all(&big).is_err() { break; }
+            }
+            let _ = s.write_all(&bs);
+            std::thread::sleep(std::time::Duration::from_millis(30));
+        }
+        alive = still_serves(addr, has_rt, &ping);
+        return finish_net(out, ep, idx, line, before, alive, &format!("{} unread responses then hostile bytes", n));
+    }
+    // ---- classes h, i: a well-formed request of a chosen total size written in pieces at chosen cut points, with or without
+    // a stall, to an endpoint WITHOUT a read timeout: it is one whole consistent frame, so it is served
+    if extra.starts_with('c') && matches!(ep, "tcp" | "atcp" | "tcpw" | "atcpw") {
+        let (addr, _) = tcp_ep(w, ep);
+        let spec = parse_frag(Some(extra));
+        let stall = std::time::Duration::from_millis(ws_.get(6).and_then(|x| x.parse().ok()).unwrap_or(0));
+        let mut answered = false;
+        if let Ok(mut s) = std::net::TcpStream::connect(addr) {
+            let _ = s.set_nodelay(true);
+            let mut at = 0usize;
+            for &sp in spec.cuts.iter().chain(std::iter::once(&bs.len())) {
+                let sp = sp.min(bs.len());
+                if sp > at {
+                    if s.write_all(&bs[at..sp]).is_err() { break; }
+                    at = sp;
+                }
+                if at < bs.len() && !stall.is_zero() { std::thread::sleep(stall); }
+            }
+            let _ = s.set_read_timeout(Some(std::time::Duration::from_secs(10)));
+            let mut buf = Vec::new();
+            let mut tmp = [0u8; 4096];
+            while RawFrame::parse_prefix(&buf).is_none() {
+                match s.read(&mut tmp) { Ok(0) | Err(_) => break, Ok(n) => buf.extend_from_slice(&tmp[..n]) }
+            }
+            let want_id = RawHeader::parse(&bs).map(|h| h.id).unwrap_or(0);
+            answered = RawFrame::parse_prefix(&buf).map(|(f, _)| f.h.id == want_id && f.h.ec == 0).unwrap_or(false);
+        }
+        if !answered {
+            out.oracle_fail(&format!("parse.net.{}.whole_frame_in_pieces_not_served", ep), &format!("a whole consistent {}-byte request delivered in pieces (cuts {:?}, stall {} ms) to an endpoint without a read timeout was not answered", bs.len(), spec.cuts, stall.as_millis()), &[line.to_string()]);
+        }
+        return finish_net(out, ep, idx, line, before, true, "pieces");
+    }
     match ep {
-        "tcp" | "atcp" => {
-            let addr = if ep == "tcp" { w.tcp } else { w.atcp };
+        "tcp" | "atcp" | "tcpw" | "atcpw" | "tcprt" | "atcprt" | "tcprw" | "atcprw" if extra.is_empty() => {
+            let (addr, has_rt) = tcp_ep(w, ep);
+            let pre = pre && !has_rt;
             if let Ok(mut s) = std::net::TcpStream::connect(addr) {
                 if pre {
                     let _ = s.set_read_timeout(Some(std::time::Duration::from_secs(10)));
@@ -1418,18 +1566,7 @@ fn exec_net(out: &mut Out, w: &NetWorld, line: &str) -> (String, bool) {
                 }
             }
             // the server must still answer a fresh connection
-            alive = false;
-            if let Ok(mut s) = std::net::TcpStream::connect(addr) {
-                let _ = s.set_read_timeout(Some(std::time::Duration::from_secs(10)));
-                if s.write_all(&ping).is_ok() {
-                    let mut buf = Vec::new();
-                    let mut tmp = [0u8; 4096];
-                    while RawFrame::parse_prefix(&buf).is_none() {
-                        match s.read(&mut tmp) { Ok(0) | Err(_) => break, Ok(n) => buf.extend_from_slice(&tmp[..n]) }
-                    }
-                    alive = RawFrame::parse_prefix(&buf).map(|(f, _)| f.h.id == 77 && f.h.ec == 0).unwrap_or(false);
-                }
-            }
+            alive = still_serves(addr, has_rt, &ping);
         }
         "ws" => {
             let url = format!("ws://{}/repe", w.ws);
@@ -1523,8 +1660,8 @@ fn exec_net(out: &mut Out, w: &NetWorld, line: &str) -> (String, bool) {
         // where the rest of the stream begins with a complete well-formed request frame to the counting route `/smuggled`
         // (id 99).  Whatever the server does at the timeout (close, or finish the same frame), it must never take up
         // reading in the middle of a frame: nothing embedded is dispatched or answered.
-        "tcprt" | "atcprt" => {
-            let addr = if ep == "tcprt" { w.tcprt } else { w.atcprt };
+        "tcprt" | "atcprt" | "tcprw" | "atcprw" => {
+            let (addr, _) = tcp_ep(w, ep);
             let splits: Vec<usize> = ws_.get(5).map(|x| x.split(',').filter_map(|t| t.parse().ok()).collect()).unwrap_or_default();
             let stall = std::time::Duration::from_millis(ws_.get(6).and_then(|x| x.parse().ok()).unwrap_or(4 * READ_TIMEOUT_MS));
             let count0 = w.smuggled.load(std::sync::atomic::Ordering::SeqCst);
@@ -1551,18 +1688,7 @@ fn exec_net(out: &mut Out, w: &NetWorld, line: &str) -> (String, bool) {
                 out.oracle_fail(&format!("parse.net.{}.embedded_frame_dispatched", ep), &format!("after a stall inside a frame (read timeout {} ms, stall {} ms at offsets {:?}) bytes INSIDE that frame were read as a frame of their own: handler ran {}, response for the embedded id arrived {}", READ_TIMEOUT_MS, stall.as_millis(), splits, ran, answered_99), &[line.to_string()]);
             }
             // the server must still answer a fresh connection
-            alive = false;
-            if let Ok(mut s) = std::net::TcpStream::connect(addr) {
-                let _ = s.set_read_timeout(Some(std::time::Duration::from_secs(10)));
-                if s.write_all(&ping).is_ok() {
-                    let mut buf = Vec::new();
-                    let mut tmp = [0u8; 4096];
-                    while RawFrame::parse_prefix(&buf).is_none() {
-                        match s.read(&mut tmp) { Ok(0) | Err(_) => break, Ok(n) => buf.extend_from_slice(&tmp[..n]) }
-                    }
-                    alive = RawFrame::parse_prefix(&buf).map(|(f, _)| f.h.id == 77 && f.h.ec == 0).unwrap_or(false);
-                }
-            }
+            alive = still_serves(addr, true, &ping);
         }
         // the WebSocket proxy entry point (`proxy_connection`): one inbound binary message = one frame, forwarded upstream
         "wsproxy" => {
@@ -1600,6 +1726,56 @@ fn exec_net(out: &mut Out, w: &NetWorld, line: &str) -> (String, bool) {
                 out.oracle_fail("parse.net.wsproxy.served_inexact_message", "the WebSocket proxy forwarded (and got answered, ec 0) a binary message that is not exactly one consistent frame", &[line.to_string()]);
             }
         }
+        // class i at the clients' entry points: a well-formed response for the client's own id, delivered in pieces at chosen
+        // cut points with stalls in between (`bs` = the JSON body of the reply, padded to a chosen size).  It is one whole
+        // consistent frame: the call returns Ok with exactly that body.
+        "clientfrag" | "aclientfrag" => {
+            let spec = parse_frag(Some(extra));
+            let stall = std::time::Duration::from_millis(ws_.get(6).and_then(|x| x.parse().ok()).unwrap_or(0));
+            let body = bs.clone();
+            let l = std::net::TcpListener::bind("127.0.0.1:0").unwrap();
+            let addr = l.local_addr().unwrap();
+            let cuts = spec.cuts.clone();
+            std::thread::spawn(move || {
+                if let Ok((mut s, _)) = l.accept() {
+                    let _ = s.set_nodelay(true);
+                    let mut got = Vec::new();
+                    let mut tmp = [0u8; 4096];
+                    while RawFrame::parse_prefix(&got).is_none() {
+                        match s.read(&mut tmp) { Ok(0) | Err(_) => return, Ok(n) => got.extend_from_slice(&tmp[..n]) }
+                    }
+                    let id = RawHeader::parse(&got).map(|h| h.id).unwrap_or(0);
+                    let reply = RawFrame::request(id, false, 1, b"/x", 2, &body).to_vec();
+                    let mut at = 0usize;
+                    for &sp in cuts.iter().chain(std::iter::once(&reply.len())) {
+                        let sp = sp.min(reply.len());
+                        if sp > at {
+                            if s.write_all(&reply[at..sp]).is_err() { return; }
+                            at = sp;
+                        }
+                        if at < reply.len() && !stall.is_zero() { std::thread::sleep(stall); }
+                    }
+                    std::thread::sleep(std::time::Duration::from_millis(200));
+                }
+            });
+            let want: serde_json::Value = serde_json::from_slice(&bs).expect("reply body is JSON");
+            let got: Result<serde_json::Value, String> = if ep == "clientfrag" {
+                match repe::Client::connect(addr) {
+                    Ok(c) => c.call_json_with_timeout("/x", &serde_json::json!(1), std::time::Duration::from_secs(10)).map_err(|e| err_class(&e)),
+                    Err(e) => Err(format!("connect: {}", e)),
+                }
+            } else {
+                w.rt.block_on(async {
+                    match repe::AsyncClient::connect(addr).await {
+                        Ok(c) => c.call_json_with_timeout("/x", &serde_json::json!(1), std::time::Duration::from_secs(10)).await.map_err(|e| err_class(&e)),
+                        Err(e) => Err(format!("connect: {}", e)),
+                    }
+                })
+            };
+            if got.as_ref().ok() != Some(&want) {
+                out.oracle_fail(&format!("parse.net.{}.fragmented_reply_wrong", ep), &format!("a whole consistent {}-byte response delivered in pieces (cuts {:?}, stall {} ms) did not come back as its own body: {:?}", 48 + 2 + bs.len(), spec.cuts, stall.as_millis(), got.as_ref().map(|_| "a different value")), &[line.to_string()]);
+            }
+        }
         // the real WebSocketClient answered with a well-formed response for ITS id followed by extra bytes in the same
         // binary message: one message per buffer, so the exact-length rule says this is not a response
         "wsecho" => {
@@ -1633,14 +1809,18 @@ fn exec_net(out: &mut Out, w: &NetWorld, line: &str) -> (String, bool) {
         }
         other => panic!("unknown endpoint {}", other),
     }
+    finish_net(out, ep, idx, line, before, alive, "")
+}
+
+fn finish_net(out: &mut Out, ep: &str, idx: &str, line: &str, before: u64, alive: bool, what: &str) -> (String, bool) {
     let after = PANICS.load(std::sync::atomic::Ordering::SeqCst);
     if after != before {
-        out.oracle_fail(&format!("parse.net.{}.panic", ep), &format!("{} panic(s) inside the endpoint while it handled hostile bytes", after - before), &[line.to_string()]);
+        out.oracle_fail(&format!("parse.net.{}.panic", ep), &format!("{} panic(s) inside the endpoint while it handled hostile bytes {}", after - before, what), &[line.to_string()]);
     }
     if !alive {
-        out.oracle_fail(&format!("parse.net.{}.dead_after", ep), "the endpoint no longer answers a well-formed request after receiving hostile bytes", &[line.to_string()]);
+        out.oracle_fail(&format!("parse.net.{}.dead_after", ep), &format!("the endpoint no longer answers a well-formed request after receiving hostile bytes {}", what), &[line.to_string()]);
     }
-    out.count(&format!("parse.net.{}", ep));
+    out.count(&format!("parse.net.{}{}", ep, if what.is_empty() { String::new() } else { format!(".{}", what.split(' ').last().unwrap_or("")) }));
     (format!("{} survived", idx), false)
 }
 
@@ -1687,7 +1867,73 @@ fn gen_stall(r: &mut Rng, n: usize) -> Vec<String> {
         }
         let stall_ms = if r.chance(1, 8) { 0 } else { *r.pick(&[4 * READ_TIMEOUT_MS, 5 * READ_TIMEOUT_MS, 7 * READ_TIMEOUT_MS]) };
         let sp: Vec<String> = splits.iter().map(|x| x.to_string()).collect();
-        ops.push(format!("net st{} {} {} 0 {} {}", i, if i % 2 == 0 { "tcprt" } else { "atcprt" }, hex(&frame), sp.join(","), stall_ms));
+        ops.push(format!("net st{} {} {} 0 {} {}", i, ["tcprt", "atcprt", "tcprw", "atcprw"][i % 4], hex(&frame), sp.join(","), stall_ms));
+    }
+    ops
+}
+
+/// Second audit pass, network side: runs of N hostile connections (g), frame sizes around the 8 KiB BufReader/BufWriter
+/// capacity and its multiples delivered whole and in pieces (h, i), every read-timeout × write-timeout pair (k), unread
+/// responses piling up (l), fragmented replies to the real clients (i).
+fn gen_net2(r: &mut Rng, thorough: bool) -> Vec<String> {
+    let mut ops = Vec::new();
+    let tcp_all = ["tcp", "atcp", "tcpw", "atcpw", "tcprt", "atcprt", "tcprw", "atcprw"];
+    let hostile: Vec<Vec<u8>> = vec![
+        RawHeader { length: 48, spec: 0, version: 1, ..Default::default() }.encode().to_vec(),
+        RawHeader { length: 47, spec: 0x1507, version: 1, query_length: u64::MAX, ..Default::default() }.encode().to_vec(),
+        RawHeader { length: 48 + (1 << 62), spec: 0x1507, version: 1, body_length: 1 << 62, ..Default::default() }.encode().to_vec(),
+        vec![0x15],
+    ];
+    // (k) every hostile form once on every timeout combination
+    for (i, ep) in tcp_all.iter().enumerate() {
+        for (j, h) in hostile.iter().enumerate() {
+            ops.push(format!("net k{}{} {} {} {}", i, j, ep, hex(h), r.below(2)));
+        }
+    }
+    // (g) N in a row
+    let runs: &[usize] = if thorough { &[1, 2, 7, 8, 9, 16, 17, 64, 65, 256, 1000] } else { &[2, 8, 9, 17] };
+    for (i, &n) in runs.iter().enumerate() {
+        let eps: Vec<&str> = if thorough { tcp_all.iter().copied().chain(["ws"]).collect() } else { vec![tcp_all[(2 * i) % 8], tcp_all[(2 * i + 1) % 8], "ws"] };
+        for ep in eps {
+            if ep == "ws" && n > 65 { continue; }
+            ops.push(format!("net g{}{} {} {} 0 n{}", i, ep, ep, hex(r.pick(&hostile)), n));
+        }
+    }
+    // (h, i) whole requests whose total size sits around the buffer capacities, in pieces
+    let totals: &[usize] = if thorough { &[8191, 8192, 8193, 8192 + 48, 16383, 16384, 16385, 65535, 65536, 65537, 57, 60] } else { &[8191, 8192, 8193, 16384, 57] };
+    for (i, &total) in totals.iter().enumerate() {
+        for (j, ep) in ["tcp", "atcp", "tcpw", "atcpw"].iter().enumerate() {
+            if !thorough && (i + j) % 2 == 1 { continue; }
+            let mut body = b"null".to_vec();
+            body.resize(total - 48 - 5, b' ');
+            let f = RawFrame::request(5000 + i as u64, false, 1, b"/ping", 2, &body).to_vec();
+            let cuts = match r.below(4) {
+                0 => format!("c{}", (1..f.len().min(200)).map(|x| x.to_string()).collect::<Vec<_>>().join(".")),   // 1-byte pieces
+                1 => "c8192".to_string(),
+                _ => gen_cuts(r, 0, 5, body.len()),
+            };
+            // a stall only between 2–3 pieces (a hundred 1-byte pieces with a stall each would just be slow)
+            let stall = if cuts.matches('.').count() > 3 { 0 } else { *r.pick(&[0u64, 0, 40, 120]) };
+            ops.push(format!("net z{}{} {} {} 0 {} {}", i, j, ep, hex(&f), cuts, stall));
+        }
+    }
+    // (l) unread responses, then hostile bytes
+    for (i, ep) in tcp_all.iter().enumerate() {
+        if !thorough && i % 2 == 1 { continue; }
+        ops.push(format!("net l{} {} {} 0 f{}", i, ep, hex(r.pick(&hostile)), *r.pick(if thorough { &[1usize, 16, 64, 256][..] } else { &[1usize, 16, 64][..] })));
+    }
+    // (i) replies to the real clients in pieces
+    for i in 0..(if thorough { 60 } else { 10 }) {
+        let total = *r.pick(&[52usize, 60, 300, 8191, 8192, 8193, 16384, 70_000]);
+        let mut body = b"[1,2,3]".to_vec();
+        body.resize(total.max(57) - 50, b' ');
+        let cuts = match r.below(4) {
+            0 => format!("c{}", (1..total.min(120)).map(|x| x.to_string()).collect::<Vec<_>>().join(".")),
+            1 => "c48".to_string(),
+            _ => gen_cuts(r, 0, 2, body.len()),
+        };
+        let stall = if cuts.matches('.').count() > 3 { 0 } else { *r.pick(&[0u64, 0, 30, 90]) };
+        ops.push(format!("net cf{} {} {} 0 {} {}", i, if i % 2 == 0 { "clientfrag" } else { "aclientfrag" }, hex(&body), cuts, stall));
     }
     ops
 }
@@ -1701,6 +1947,7 @@ fn gen_net(r: &mut Rng, n: usize) -> Vec<String> {
         ops.push(format!("net e{} wsecho {}", i, hex(&suffix)));
     }
     ops.extend(gen_stall(r, (n / 15).max(16)));
+    ops.extend(gen_net2(r, n > 1000));
     // a well-formed request to a registered route followed by trailing bytes / a second frame, as ONE WebSocket message:
     // the exact-length rule says it must not be served
     for i in 0..(n / 12).max(12) {
@@ -1786,14 +2033,17 @@ fn main() {
     };
     let mut world: Option<NetWorld> = None;
     let mut world_state = World::new();
+    // class l: odd seeds run the async endpoints on a runtime with one worker and one blocking-pool thread
+    let lean_runtime = args.seed % 2 == 1;
+    out.extra.insert("lean_runtime".into(), serde_json::json!(lean_runtime));
     for line in ops {
-        if out.oracle_failures > 60 {
+        if out.oracle_failures > 12 {
             // a broken tree: enough failing inputs have been recorded, do not grind through the rest
             break;
         }
         out.begin(&line);
         if line.starts_with("net ") {
-            let w = world.get_or_insert_with(net_world);
+            let w = world.get_or_insert_with(|| net_world(lean_runtime));
             let (obs, nt) = exec_net(&mut out, w, &line);
             out.case(&line, &obs, nt);
             continue;
